@@ -174,9 +174,11 @@ Err(nd, init) == [kind |-> "error", version |-> "", nDisc |-> nd, sentInit |-> i
 \* Mcp-Protocol-Version: 2026-07-28 but no _meta version, which every streamable endpoint refuses (400): Connect fails;
 \* on the pipes and on SSE nothing objects and the session is handed out
 InitAnswer(c, pv) == IF c.ians = "honest" THEN NegotiatedVersion(pv) ELSE c.ians
+\* (since /repo 6db52c0 the client refuses an initialize result that selects a version without initialize handshake,
+\* on every transport; before, only the streamable endpoints' 400 on notifications/initialized stopped it)
 InitVia(c, pv, nd) == LET a == InitAnswer(c, pv) IN
                       IF a \notin V THEN Err(nd, TRUE)
-                      ELSE IF a \in Modern /\ c.tr \in HttpOpts THEN Err(nd, TRUE)
+                      ELSE IF a \in Modern THEN Err(nd, TRUE)
                       ELSE Sess(a, nd, TRUE)
 
 Expected(c) ==
